@@ -157,6 +157,15 @@ func (fl Flow) mustPrecedeWith(a InstrPred, target ssa.Instruction) bool {
 				if fl.Skip != nil && fl.Skip(p, b) {
 					continue
 				}
+				// a merge tested for nil right away: only what enters it on the ways that go on to b counts
+				if threaded, feasible, val := fl.throughThreadedMerge(p, b, out, has); threaded {
+					if !feasible {
+						continue
+					}
+					np++
+					v = v && val
+					continue
+				}
 				np++
 				v = v && out[p.Index]
 			}
